@@ -96,6 +96,10 @@ type Interp struct {
 	nextObj  int
 	hostSyms map[string]Sym
 	pathSplitFn map[*ssa.Function]bool
+	appendSeq int
+	// PreciseMap tells whether maps of this type may be modelled entry by entry (set by the
+	// world: true iff no code reachable in the run phase updates or deletes from a map of that type)
+	PreciseMap func(types.Type) bool
 	// LenProofUsed: the '< len' references that actually discharged an index obligation
 	LenProofUsed map[*Object]bool
 	lenCells    map[CellKey]*Object // pseudo objects naming "the slice held by this cell" for '< len' facts
